@@ -2,6 +2,7 @@
 import os
 import re
 import pv
+import diffrun
 
 BASE = ["pmem.c", "perror.c", "pstring.c"]
 ATOMIC_SRC = {"c11": ["patomic-c11.c"], "sync": ["patomic-sync.c"], "sim": ["patomic-sim.c", "pmutex-posix.c"]}
@@ -11,6 +12,41 @@ WRAP = ["-Wl,--wrap=pthread_mutex_%s" % x for x in ("init", "lock", "trylock", "
 # which ThreadSanitizer cannot see; for the TSan build only they are renamed to the generic builtins
 CLANG_RENAMES = ["-D__atomic_load_4=__atomic_load_n", "-D__atomic_load_8=__atomic_load_n",
                  "-D__atomic_store_4=__atomic_store_n", "-D__atomic_store_8=__atomic_store_n"]
+
+class VFamily(diffrun.Family):
+    """a line-protocol family bound to one back-end: the `variant X` op is sent first on both sides (and its `ok`
+    dropped), so that op files carry only real operations and shrinking cannot lose the variant"""
+
+    def __init__(self, name, exe, variant, **kw):
+        diffrun.Family.__init__(self, name, exe, **kw)
+        self.variant = variant
+
+    @staticmethod
+    def _strip(out):
+        head, sep, rest = out.partition("\n")
+        return rest if head == "ok" else out
+
+    def run_c(self, text):
+        rc, out, err = pv.run_proc([self.exe], "variant %s\n%s" % (self.variant, text), self.timeout, self.env)
+        return rc, self._strip(out), err
+
+    def run_m(self, text):
+        rc, out, err = pv.run_model(self.name, "variant %s\n%s" % (self.variant, text))
+        return rc, self._strip(out), err
+
+
+def corpus_for(prop, variant):
+    """corpus files start with a `variant X` line"""
+    return [c[1:] for c in pv.load_corpus(prop) if c and c[0] == "variant " + variant and len(c) > 1]
+
+
+def replay_file(path):
+    """-> (variant, op lines) of a replay written by a check of this family (header comment `… variant=X …`)"""
+    txt = open(path).read()
+    m = re.search(r"variant[= ](\S+)", txt)
+    lines = [l.strip() for l in txt.splitlines() if l.strip() and not l.startswith("#") and not l.startswith("variant ")]
+    return (m.group(1) if m else None), lines
+
 
 EXT_KEYS = ("patomic", "pspinlock", "pmutex", "platform probe", "gen_atomics")
 
@@ -118,3 +154,24 @@ def stress_campaign(chk, cfg, prop, plan, budget_s, label):
             chk.violation(replay, "%s %s %s/%s: %s" % (prop, label, variant, mode, bad), suffix="txt")
     chk.cov.setdefault("supporting_real_thread_runs", []).extend(runs)
     return found
+
+
+def name_broken_theorems(detail):
+    """turn `File.lean:LINE:COL` positions of build errors into the names of the enclosing theorems"""
+    names = []
+    for d in list(detail):
+        for f, ln in re.findall(r"(PV/[\w/]+\.lean):(\d+):\d+", d):
+            try:
+                src = open(os.path.join(pv.LEAN, f)).read().splitlines()
+            except OSError:
+                continue
+            for i in range(min(int(ln), len(src)) - 1, -1, -1):
+                m = re.match(r"\s*(?:theorem|example|def|instance)\s+(\S+)?", src[i])
+                if m:
+                    nm = "%s: %s (line %s)" % (f, m.group(1) or "example", ln)
+                    if nm not in names:
+                        names.append(nm)
+                    break
+    if names:
+        detail.append("broken: " + "; ".join(names))
+    return names
